@@ -3,6 +3,8 @@ package core
 import (
 	"fmt"
 	"reflect"
+	"sync"
+	"time"
 
 	"github.com/junioryono/godi/v4"
 )
@@ -163,3 +165,112 @@ var funcKindCases = []funcKindCase{
 
 //go:noinline
 func fkTop0ish(tag int) func() *FK { return func() *FK { return &FK{Tag: tag} } }
+
+// ---- overlapping resolutions of constructors that share code ---------------------------
+
+// FKGateDep is a transient dependency whose FIRST construction of a round parks until released.
+type FKGateDep struct{}
+
+var fkGate struct {
+	mu      sync.Mutex
+	armed   bool
+	entered chan struct{}
+	release chan struct{}
+}
+
+func newFKGateDep() *FKGateDep {
+	fkGate.mu.Lock()
+	park := fkGate.armed
+	fkGate.armed = false
+	entered, release := fkGate.entered, fkGate.release
+	fkGate.mu.Unlock()
+	if park {
+		entered <- struct{}{}
+		<-release
+	}
+	return &FKGateDep{}
+}
+
+//go:noinline
+func mkClosureGate(tag int) func(*FKGateDep) *FK {
+	return func(*FKGateDep) *FK { return &FK{Tag: tag} }
+}
+
+type fkRecvGate struct{ tag int }
+
+func (r *fkRecvGate) New(*FKGateDep) *FK { return &FK{Tag: r.tag} }
+
+// overlappingSharedCode: resolution of "n0" is parked inside its dependency's constructor,
+// "n1" (same code pointer, same func type) is resolved completely, then "n0" resumes. Each
+// must have been produced by its own function value.
+func overlappingSharedCode(kind string, life godi.Lifetime) ([]Finding, int) {
+	var fns []any
+	switch kind {
+	case "closures":
+		fns = []any{mkClosureGate(0), mkClosureGate(1)}
+	default:
+		fns = []any{(&fkRecvGate{0}).New, (&fkRecvGate{1}).New}
+	}
+	coll := godi.NewCollection()
+	if err := coll.AddTransient(newFKGateDep); err != nil {
+		return []Finding{{"funckind-registration", kind, err.Error()}}, 0
+	}
+	for i, fn := range fns {
+		var err error
+		if life == godi.Scoped {
+			err = coll.AddScoped(fn, godi.Name(fmt.Sprintf("n%d", i)))
+		} else {
+			err = coll.AddTransient(fn, godi.Name(fmt.Sprintf("n%d", i)))
+		}
+		if err != nil {
+			return []Finding{{"funckind-registration", kind, err.Error()}}, 0
+		}
+	}
+	prov, err := coll.Build()
+	if err != nil {
+		return []Finding{{"funckind-build", kind, err.Error()}}, 0
+	}
+	defer prov.Close()
+	sc, err := prov.CreateScope(nil)
+	if err != nil {
+		return []Finding{{"funckind-build", kind, err.Error()}}, 0
+	}
+	defer sc.Close()
+	fkGate.mu.Lock()
+	fkGate.armed = true
+	fkGate.entered = make(chan struct{}, 1)
+	fkGate.release = make(chan struct{})
+	entered, release := fkGate.entered, fkGate.release
+	fkGate.mu.Unlock()
+	type res struct {
+		v   *FK
+		err error
+	}
+	first := make(chan res, 1)
+	go func() {
+		v, err := godi.ResolveKeyed[*FK](sc, "n0")
+		first <- res{v, err}
+	}()
+	select {
+	case <-entered:
+	case <-time.After(10 * time.Second):
+		close(release)
+		return nil, 0 // the gate was never reached: nothing observed
+	}
+	v1, err1 := godi.ResolveKeyed[*FK](sc, "n1")
+	close(release)
+	r0 := <-first
+	var fs []Finding
+	feat := "overlapping-" + kind + ":" + lifeName(life)
+	if r0.err != nil || err1 != nil {
+		fs = append(fs, Finding{"funckind-resolution", feat, fmt.Sprintf("resolution failed: %v / %v", r0.err, err1)})
+		return fs, 2
+	}
+	if r0.v.Tag != 0 {
+		fs = append(fs, Finding{"wrong-function-value-called", feat, fmt.Sprintf("the service registered with function value 0 was produced by function value %d (its resolution overlapped the resolution of a registration sharing its code pointer)", r0.v.Tag)})
+	}
+	if v1.Tag != 1 {
+		fs = append(fs, Finding{"wrong-function-value-called", feat, fmt.Sprintf("the service registered with function value 1 was produced by function value %d", v1.Tag)})
+	}
+	return fs, 2
+}
